@@ -54,6 +54,62 @@ func checkC09(c *Ctx) {
 				"success return reachable after sPath.Push(name) without sPath.Pop(): the name stays on the search path, so reaching the same script again (diamond, double use) is reported as a circular dependency")
 		}
 	}
+	// … and pops nothing else: exact balance. State = (net depth −1…2, deferred pops 0…2). A second Pop (a deferred
+	// one added next to the explicit one) removes the *caller's* entry: the caller is then no longer on the path and a
+	// cycle through it is found a lap late, with a chain that starts at the wrong script.
+	for _, f := range walkers {
+		enc := func(d, k int) int { return (d+1)*3 + k }
+		dec := func(s int) (int, int) { return s/3 - 1, s % 3 }
+		clampD := func(d int) int {
+			if d < -1 {
+				return -1
+			}
+			if d > 2 {
+				return 2
+			}
+			return d
+		}
+		ts := &typestate{fn: f, nstate: 12, init: enc(0, 0)}
+		ts.trans = func(in ssa.Instruction, st int) int {
+			d, k := dec(st)
+			switch x := in.(type) {
+			case *ssa.Defer:
+				if isPop(&x.Call) || isDeferredClosureCalling(&x.Call, isPop) {
+					if k < 2 {
+						k++
+					}
+				}
+			case *ssa.RunDefers:
+				d = clampD(d - k)
+				k = 0
+			case *ssa.Call:
+				if isPush(&x.Call) {
+					d = clampD(d + 1)
+				}
+				if isPop(&x.Call) {
+					d = clampD(d - 1)
+				}
+			}
+			return enc(d, k)
+		}
+		before := ts.run()
+		allInstrs(f, func(in ssa.Instruction) {
+			ret, ok := in.(*ssa.Return)
+			if !ok || ret.Block() == f.Recover || retError(ret) == "nonnil" {
+				return
+			}
+			under := false
+			for s := 0; s < 12; s++ {
+				if before[in]&(1<<uint(s)) != 0 {
+					if d, _ := dec(s); d < 0 {
+						under = true
+					}
+				}
+			}
+			r.Ob("PUSH-POP", fmt.Sprintf("%s success return #%d pops only its own entry", relName(f), retOrdinal(f, ret)), t.Pos(ret.Pos()), !under,
+				"on no path to this return are more entries popped than this activation pushed (explicit and deferred Pop calls counted): an extra Pop drops the caller's entry from the search path")
+		})
+	}
 	r.Floor("PUSH-POP", 1)
 	r.FloorN("functions calling searchPath.Push", len(walkers), 1)
 
